@@ -1,10 +1,12 @@
 import ChaiVerif.Drv.Arith
 import ChaiVerif.Drv.Lit
+import ChaiVerif.Drv.Stl
 open ChaiVerif.Drv
 
 def main (args : List String) : IO UInt32 := do
   match args with
   | ["arith"] => lineLoop arithLine; return 0
   | ["literal"] => lineLoop litLine; return 0
+  | ["stl"] => lineLoop stlLine; return 0
   | ["arith-abi"] => (abiLines.forM IO.println); return 0
   | _ => IO.eprintln "usage: chaimodel <mode>"; return 2
